@@ -150,7 +150,7 @@ fn check(text: &str, case: &str, before: usize, rep: &mut Report) {
                 problems.push("unknown-word:not-quoted".to_string());
             }
         }
-        Failure::Other(_) => {
+        Failure::Other(_) | Failure::OutOfRange(_, _) => {
             rep.count("other_failure");
         }
     }
